@@ -39,6 +39,7 @@ VALUE_POOL_SMALL = (X, Y, ("Sum", T(X, Y)), C(2))        # for depth-3 patterns 
 FUNCTION_POOL = (V("g"),)                                # values for a candidate in a function slot
 AGGREGATE_POOL = (V("brr"),)                             # ... in an aggregate slot
 RENAME_TO = ("a", "b", "c", "x", "y", "z")               # injective renamings map into these names
+RENAME_TO_QUICK = 5                                      # quick, nestings: only the first five of them
 INDEP_LEAVES = (A, X, Y, C(0), C(1), C(2))               # leaves of independently generated targets
 PATTERN_CTORS = ("Call1", "Call2", "Subscript", "SubscriptT", "Sum2", "Sum3", "Product2",
                  "Product3", "Quotient", "Power", "Cmp<", "Cmp==", "If")
@@ -59,6 +60,10 @@ W, U = ("DotWildcard", S("w_")), ("DotWildcard", S("u_"))
 ST, ST2 = ("StarWildcard", S("s_")), ("StarWildcard", S("t_"))
 SUBJECT_LEAVES = (X, Y, C(2))
 WILD_LEAVES = (X, C(2), W, U)
+# constants that are == for Python (and for matchpy's value-compared terms) but differ in type/sign
+TWIN_LEAVES = (C(1), C(1.0), C(True), C(2), C(2.0), C(0.0), C(-0.0))
+TWIN_PAIRS = ((C(1), C(1.0)), (C(1), C(True)), (C(1.0), C(True)), (C(2), C(2.0)),
+              (C(0.0), C(-0.0)), (C(0), C(False)), (C(0), C(0.0)))
 RHS_HEAD = V("R")                                        # head of every replacement right-hand side
 
 # }}}
@@ -268,7 +273,7 @@ def instances(P, K, pool, tier, first=None):
         yield from target_variants(t, tier, max_perm)
 
 
-def renamings(P, K):
+def renamings(P, K, n_names=None):
     """Targets that are P under an injective renaming moving only K (incl. swaps among own names)."""
     names = var_names(P)
     fixed = [n for n in names if n not in K]
@@ -280,7 +285,7 @@ def renamings(P, K):
         elif kinds.get(k) == "a":
             pools.append(("arr", "brr"))
         else:
-            pools.append(RENAME_TO)
+            pools.append(RENAME_TO[:n_names])
     for vals in itertools.product(*pools):
         if len(set(vals)) != len(vals) or set(vals) & set(fixed):
             continue
@@ -512,10 +517,35 @@ def roundtrip_kind(spec):
     except Exception as e:  # noqa: BLE001
         return f"rt-raises:{type(e).__name__}", f"round trip raised {type(e).__name__}: {e}"
     bs = to_spec(back)
-    if bridge_normal(bs) != bridge_normal(spec):
-        how = "regrouped" if ac_flat_all(bs) == ac_flat_all(spec) else "changed"
+    if not same(bridge_normal(bs), bridge_normal(spec)):
+        how = "regrouped" if same(ac_flat_all(bs), ac_flat_all(spec)) else "changed"
         return f"rt-{how}", f"came back as {show(bs)}"
     return None, ""
+
+
+def roundtrip_shared(r, specs):
+    """Several expressions converted by ONE To- and ONE From-mapper instance, in order."""
+    from pymbolic.interop.matchpy.tofrom import (
+        FromMatchpyExpressionMapper, ToMatchpyExpressionMapper)
+    to, fr = ToMatchpyExpressionMapper(), FromMatchpyExpressionMapper()
+    for i, spec in enumerate(specs):
+        r.evals += 1
+        try:
+            bs = to_spec(fr(to(build(spec))))
+        except (RecursionError, Hang):
+            raise
+        except Exception as e:  # noqa: BLE001
+            r.fail("rt-shared-raises", f"rt-shared-raises|{norm_msg(e)}",
+                   f"converting {show(spec)} raised {type(e).__name__}: {e}",
+                   witness=("rtseq", *specs))
+            return
+        if not same(bridge_normal(bs), bridge_normal(spec)):
+            canon = " ; ".join(show(x) for x in specs[:i + 1])
+            r.fail("rt-shared-changed", f"rt-shared-changed|{canon}",
+                   f"one mapper pair converting {canon} in this order: {show(spec)} came back as "
+                   f"{show(bs)}", witness=("rtseq", *specs))
+            return
+    r.keys.append(("rtseq", specs))
 
 
 def ac_flat_all(s):
@@ -543,6 +573,12 @@ def ac_flat_all(s):
 
 def law_normal(s):
     return ac_normal(s, wrap_index=True)
+
+
+def same(a, b) -> bool:
+    """Type- and sign-strict equality of specs: ("float", 0.0) == ("float", -0.0) and
+    ("int", 1) != ("float", 1.0) as tuples, repr tells all of them apart."""
+    return repr(a) == repr(b)
 
 
 def star_context(pattern):
@@ -612,7 +648,7 @@ def check_match(r, subject, pattern):
     for subst in results:
         dots, stars, probs = binding_specs(subst, pattern)
         inst = instantiate(pattern, dots=dots, stars=stars)
-        if law_normal(inst) != ns:
+        if not same(law_normal(inst), ns):
             probs.append(f"instantiates the pattern to {show(inst)}, not the subject")
         for text in probs:
             r.fail("match-unsound", f"match-unsound|{pcanon}",
@@ -635,17 +671,17 @@ def check_anywhere(r, subject, pattern):
                f"match_anywhere(subject={show(subject)}, pattern={pcanon}) raised "
                f"{type(e).__name__}: {e}", witness=("pair", "anywhere", subject, pattern))
         return
-    nodes = {law_normal(c) for c in subterms(law_normal(subject))}
+    nodes = {repr(law_normal(c)) for c in subterms(law_normal(subject))}
     if results:
         r.keys.append(("a", subject, pattern))
         r.count("matches", len(results))
     for subst, where in results:
         dots, stars, probs = binding_specs(subst, pattern)
         ws = law_normal(to_spec(where))
-        if ws not in nodes:
+        if repr(ws) not in nodes:
             probs.append(f"reported location {show(ws)} is not a subterm of the subject")
         inst = instantiate(pattern, dots=dots, stars=stars)
-        if law_normal(inst) != ws:
+        if not same(law_normal(inst), ws):
             probs.append(f"instantiates the pattern to {show(inst)}, not the reported subterm "
                          f"{show(ws)}")
         for text in probs:
@@ -667,8 +703,13 @@ class RuleLoops(Exception):
 
 
 def check_replace(r, subject, pattern):
+    check_replace_seq(r, (subject,), pattern)
+
+
+def check_replace_seq(r, subjects, pattern):
+    """ONE replacement rule object applied to the subjects one after the other (the rule keeps its
+    converters, so state carried from one call to the next shows up in the later results)."""
     import pymbolic.interop.matchpy as m
-    r.evals += 1
     pcanon = show(pattern)
     rhs = rhs_template(pattern)
     calls = []
@@ -676,58 +717,77 @@ def check_replace(r, subject, pattern):
     def replacement(**kw):
         dots, stars, probs = binding_specs(kw, pattern)
         new = instantiate(rhs, dots=dots, stars=stars)
-        lhs = law_normal(instantiate(pattern, dots=dots, stars=stars))
-        if any(c == lhs for c in subterms(law_normal(new))):
+        lhs = repr(law_normal(instantiate(pattern, dots=dots, stars=stars)))
+        if any(repr(c) == lhs for c in subterms(law_normal(new))):
             # e.g. Sum(w_, s_...) -> R(w_, s_...) with w_ bound to the whole sum: not a
             # terminating rewrite system, nothing to learn from running it
             raise RuleLoops
         calls.append((dots, stars, probs))
         return build(new)
 
-    wit = ("pair", "replace", subject, pattern)
+    if len(subjects) == 1:
+        wit = ("pair", "replace", subjects[0], pattern)
+    else:
+        wit = ("replseq", pattern, *subjects)
     try:
         rule = m.make_replacement_rule(build(pattern), replacement)
-        result = m.replace_all(build(subject), [rule])
-    except RuleLoops:
-        r.count("looping_rules_skipped", 1)
-        return
     except (RecursionError, Hang):
         raise
     except Exception as e:  # noqa: BLE001
-        stage = "before-any-match" if not calls else "after-match"
-        r.fail("replace-raises", f"replace-raises|{norm_msg(e)}|{stage}",
-               f"replace_all(subject={show(subject)}, rule {pcanon} -> {show(rhs)}) raised "
-               f"{type(e).__name__}: {e} after {len(calls)} callback call(s)", witness=wit)
+        r.evals += 1
+        r.fail("replace-raises", f"replace-raises|{norm_msg(e)}|making-rule",
+               f"make_replacement_rule({pcanon}) raised {type(e).__name__}: {e}", witness=wit)
         return
-    if calls:
-        r.keys.append(("r", subject, pattern))
-        r.count("replacements", len(calls))
-    states = {law_normal(subject)}
-    for i, (dots, stars, probs) in enumerate(calls):
-        for text in probs:
-            r.fail("replace-unsound", f"replace-unsound|{pcanon}",
-                   f"replace_all(subject={show(subject)}, rule {pcanon}): callback {i}: {text}",
-                   witness=wit)
-        lhs = law_normal(instantiate(pattern, dots=dots, stars=stars))
-        new = instantiate(rhs, dots=dots, stars=stars)
-        nxt = set()
-        for st in states:
-            for path, c in positions(st):
-                if c == lhs:
-                    nxt.add(law_normal(put_at(st, path, new)))
-        if not nxt:
-            r.fail("replace-unsound", f"replace-unsound|{pcanon}",
-                   f"replace_all(subject={show(subject)}, rule {pcanon}): callback {i} got "
-                   f"{show_binding(dots, stars)}, but the instantiated pattern {show(lhs)} is not "
-                   f"a subterm of the expression rewritten so far", witness=wit)
+    for n, subject in enumerate(subjects):
+        r.evals += 1
+        del calls[:]
+        nth = "" if len(subjects) == 1 else f" (call {n + 1} with the same rule object)"
+        try:
+            result = m.replace_all(build(subject), [rule])
+        except RuleLoops:
+            r.count("looping_rules_skipped", 1)
             return
-        states = nxt
-    rs = law_normal(to_spec(result))
-    if rs not in states:
-        r.fail("replace-unsound", f"replace-unsound|{pcanon}",
-               f"replace_all(subject={show(subject)}, rule {pcanon} -> {show(rhs)}) returned "
-               f"{show(rs)}; rewriting with the {len(calls)} reported match(es) gives "
-               + " or ".join(sorted(show(s) for s in states)), witness=wit)
+        except (RecursionError, Hang):
+            raise
+        except Exception as e:  # noqa: BLE001
+            stage = "before-any-match" if not calls else "after-match"
+            r.fail("replace-raises", f"replace-raises|{norm_msg(e)}|{stage}",
+                   f"replace_all(subject={show(subject)}, rule {pcanon} -> {show(rhs)}){nth} raised "
+                   f"{type(e).__name__}: {e} after {len(calls)} callback call(s)", witness=wit)
+            return
+        if calls:
+            r.keys.append(("r", subject, pattern, n))
+            r.count("replacements", len(calls))
+        start = law_normal(subject)
+        states = {repr(start): start}
+        for i, (dots, stars, probs) in enumerate(calls):
+            for text in probs:
+                r.fail("replace-unsound", f"replace-unsound|{pcanon}",
+                       f"replace_all(subject={show(subject)}, rule {pcanon}){nth}: callback {i}: "
+                       f"{text}", witness=wit)
+            lhs = law_normal(instantiate(pattern, dots=dots, stars=stars))
+            klhs = repr(lhs)
+            new = instantiate(rhs, dots=dots, stars=stars)
+            nxt = {}
+            for st in states.values():
+                for path, c in positions(st):
+                    if repr(c) == klhs:
+                        st2 = law_normal(put_at(st, path, new))
+                        nxt[repr(st2)] = st2
+            if not nxt:
+                r.fail("replace-unsound", f"replace-unsound|{pcanon}",
+                       f"replace_all(subject={show(subject)}, rule {pcanon}){nth}: callback {i} got "
+                       f"{show_binding(dots, stars)}, but the instantiated pattern {show(lhs)} is "
+                       f"not a subterm of the expression rewritten so far", witness=wit)
+                return
+            states = nxt
+        rs = law_normal(to_spec(result))
+        if repr(rs) not in states:
+            r.fail("replace-unsound", f"replace-unsound|{pcanon}",
+                   f"replace_all(subject={show(subject)}, rule {pcanon} -> {show(rhs)}){nth} returned "
+                   f"{show(rs)}; rewriting with the {len(calls)} reported match(es) gives "
+                   + " or ".join(sorted(show(x) for x in states.values())), witness=wit)
+            return
 
 
 @lru_cache(maxsize=None)
@@ -757,10 +817,62 @@ def wildcard_patterns():
     seen = set()
     res = []
     for s in out:
+        dots, _ = wildcard_names(s)
+        if dots and dots[0] != "w_":
+            continue            # the same pattern with w_ and u_ exchanged is in the list
         if s not in seen:
             seen.add(s)
             res.append(s)
     return tuple(res)
+
+
+# non-commutative two-operand shapes (inside a sum/product matchpy's own multisets identify
+# ==-equal constants, which is outside the bridge)
+TWO_SLOT = ("Call2", "SubscriptT", "Quotient", "Power", "Cmp<")
+
+
+def twin_roundtrip_items():
+    """Equal-but-differently-typed constants side by side (and across two conversions that share
+    the mapper objects)."""
+    for s_ in gen.depth2([c for c in BRIDGED if len(c.slots) <= 3], TWIN_LEAVES[:5], FILL):
+        yield ("rt", s_)
+    two = [c for c in BRIDGED if sum(1 for k in c.slots if k in "eb") == 2]
+    for s_ in gen.depth2(two, TWIN_LEAVES[5:], FILL):
+        yield ("rt", s_)
+    twin_fill = dict(FILL)
+    twin_fill["e"] = twin_fill["b"] = [C(1), C(1.0), C(True), C(2), C(2.0)]
+    for _, s_ in gen.nest2(BRIDGED, BRIDGED, twin_fill, 0, 0):
+        yield ("rt", s_)
+    f, arr = FILL["f"][0], FILL["a"][0]
+    for c1, c2 in TWIN_PAIRS:
+        for u, v in ((c1, c2), (c2, c1)):
+            for shape in (lambda c: ("Call", f, T(c)), lambda c: ("Power", X, c),
+                          lambda c: ("Subscript", arr, c), lambda c: ("Quotient", c, X),
+                          lambda c: ("Sum", T(X, c))):
+                yield ("rtseq", shape(u), shape(v))
+
+
+def twin_match_items():
+    for c in gen.ctors(names=TWO_SLOT):
+        for c1, c2 in TWIN_PAIRS:
+            for u, v in ((c1, c2), (c2, c1)):
+                lv = iter((u, v))
+                subj = c(*[next(lv) if k in "eb" else FILL[k][0] for k in c.slots])
+                lw = iter((W, U))
+                pat = c(*[next(lw) if k in "eb" else FILL[k][0] for k in c.slots])
+                yield ("mt", subj, pat)
+
+
+def twin_replace_items():
+    f = FILL["f"][0]
+    for c1, c2 in TWIN_PAIRS:
+        for u, v in ((c1, c2), (c2, c1)):
+            yield ("replseq", ("Call", f, T(W)), ("Power", X, ("Call", f, T(u))),
+                   ("Power", X, ("Call", f, T(v))))
+            yield ("replseq", ("Quotient", W, X), ("Power", Y, ("Quotient", u, X)),
+                   ("Power", Y, ("Quotient", v, X)))
+            yield ("replseq", ("Call", f, T(W, U)), ("Power", X, ("Call", f, T(u, v))),
+                   ("Power", X, ("Call", f, T(v, u))))
 
 
 @lru_cache(maxsize=None)
@@ -854,15 +966,21 @@ class C16(Check):
             "the value pool {x, y, z, x+y, x*y, 2, f(x)} (quick: {x, y, x+y, 2} for nestings), each as "
             "is, with operands reversed, flattened, flattened+reversed, rotated and regrouped "
             "(thorough: all root permutations up to 4 operands, 3 for the deeper patterns), (ii) every exact injective renaming "
-            "of the candidates into a b c x y z, (iii) every independently generated depth<=2 tree "
+            "of the candidates into a b c x y z (quick, nestings: a b c x y and candidate subsets "
+            "of a b c only), (iii) every independently generated depth<=2 tree "
             "with the same root (leaves a x y 0 1 2, nested / 4-ary sums and products, 1-tuple "
             "indices, other function / aggregate symbols), one representative of every other root, "
             "and for nestings every other nesting with the same root. bridge: to/from round trip on "
             "all depth-2 trees (leaves x y 2 -1 2.5 True 1j) and all (parent, position, child) "
             "nestings of the 19 bridged node types (thorough: three-level chains over 13 shapes); "
-            "match / match_anywhere / replace_all for every depth-2 pattern over {x, 2, w_, u_} and "
-            "its star-wildcard forms against every same-root subject resp. every nesting containing "
-            "that root, and for patterns derived from each nesting by wildcarding one or two leaves. "
+            "ditto with the ==-equal constants 1 1.0 True 2 2.0 0.0 -0.0 as leaves and across two "
+            "conversions by one mapper pair; "
+            "match / match_anywhere / replace_all for every depth-2 pattern over {x, 2, w_, u_} (one "
+            "per exchange of w_ and u_) and its star-wildcard forms against every same-root subject "
+            "resp. every nesting containing that root, for patterns derived from each nesting by "
+            "wildcarding one or two leaves, for all-wildcard patterns against non-commutative "
+            "subjects holding two ==-equal constants, and for one rule object applied to two such "
+            "subjects in a row. "
             "Non-trivial = the unifier / bridge returned at least one record / match / rewrite (all "
             "of which are checked); distinct = distinct (pattern, target, candidates) or (subject, "
             "pattern), counted per hash seed.")
@@ -883,6 +1001,11 @@ class C16(Check):
         "instantiated right-hand side R(wildcards...); reaching a fixed point is not demanded; a "
         "bare wildcard pattern and rules whose right-hand side contains their left-hand side "
         "(Sum(w_, s_...) with w_ bound to the whole sum) are not run (they rewrite for ever)",
+        "bridge results are compared with strict constant types and signs (1 / 1.0 / True, 0.0 / "
+        "-0.0 are different); such ==-equal constants are put side by side in round-trip subjects "
+        "everywhere, but in match / replace subjects only in non-commutative positions, because "
+        "inside a sum/product matchpy's own multisets identify ==-equal operands "
+        "(match(Sum((1, 1.0)), Sum((w_, u_))) binds both to 1 -- equal for ==, as the statement asks)",
         "only the PYTHONHASHSEED values listed in hash_seeds (set iteration order in the unifier)",
     ]
     hash_seeds = {"quick": [0, 1, 2], "thorough": [0, 1, 2, 3, 4, 5, 6, 7]}
@@ -899,8 +1022,11 @@ class C16(Check):
             ("u-inst3", lambda: inst_items(patterns_nest(),
                                            "small" if tier == "quick" else "full", False)),
             ("u-inst-siblings", lambda: inst_items(patterns_siblings(), "small", "few")),
-            ("u-rename", lambda: (("ren", P, K) for P in patterns_depth2() + patterns_nest()
-                                  + patterns_siblings() for K in candidate_sets(P))),
+            ("u-rename", lambda: (("ren", P, K) for P in patterns_depth2() + patterns_siblings()
+                                  for K in candidate_sets(P))),
+            ("u-rename-nest", lambda: (("ren", P, K, RENAME_TO_QUICK if tier == "quick" else None)
+                                       for P in patterns_nest()
+                                       for K in candidate_sets(P, full=(tier == "thorough")))),
             ("u-indep", lambda: (("indep", P, K) for P in patterns_depth2()
                                  for K in candidate_sets(P))),
             ("u-cross", lambda: (("cross", P, K) for P in patterns_nest()
@@ -908,6 +1034,9 @@ class C16(Check):
                                                          else "all-core"))),
             ("b-roundtrip2", lambda: (("rt", s) for s in gen.depth2(BRIDGED, RT_LEAVES))),
             ("b-roundtrip-nest", lambda: (("rt", s) for _, s in gen.nest2(BRIDGED, BRIDGED))),
+            ("b-roundtrip-twins", twin_roundtrip_items),
+            ("b-match-twins", twin_match_items),
+            ("b-replace-twins", twin_replace_items),
             ("b-match2", lambda: (("m2", p) for p in wildcard_patterns())),
             ("b-match-nest", lambda: (("m3", s) for _, _, s in subjects_nest())),
             ("b-anywhere-replace", lambda: (("ar", p) for p in wildcard_patterns())),
@@ -941,7 +1070,7 @@ class C16(Check):
                 do_triple(r, P, t, K, state)
         elif what == "ren":
             P, K = item[1], tuple(item[2])
-            for t in renamings(P, K):
+            for t in renamings(P, K, item[3] if len(item) > 3 else None):
                 n = do_triple(r, P, t, K, state)
                 r.count("renamings", 1)
                 if n:
@@ -987,6 +1116,16 @@ class C16(Check):
                     check_anywhere(r, s, p)
                     if p[0] != "DotWildcard":     # a bare wildcard rewrites its own result for ever
                         check_replace(r, s, p)
+        elif what == "rtseq":
+            roundtrip_shared(r, tuple(item[1:]))
+        elif what == "mt":
+            _, subj, pat = item
+            check_match(r, subj, pat)
+            wrapped = ("If", Y, subj, X)
+            check_anywhere(r, wrapped, pat)
+            check_replace(r, wrapped, pat)
+        elif what == "replseq":
+            check_replace_seq(r, tuple(item[2:]), item[1])
         elif what == "pair":
             _, api, s, p = item
             {"match": check_match, "anywhere": check_anywhere, "replace": check_replace}[api](
